@@ -73,6 +73,43 @@ def ofInt64 (i : Int) : Nat := (i % 2 ^ 64).toNat
 /-- int64 wrap-around of an exact integer result -/
 def wrap64 (i : Int) : Int := toInt64 (ofInt64 i)
 
+/-! ## the bounds the decoders test
+
+Named (as reducible abbreviations, so every proof sees through them) because `Props/C23` ties each of
+them to the condition REGENERATED from the Go source (`Gen.C23.*`, go2lean `if_cond`). -/
+
+/-- `len(data) < 8` (UnmarshalBinary) -/
+abbrev UmShort (dataLen : Nat) : Prop := dataLen < 8
+/-- `len(data) < messageLength || messageLength < 8` -/
+abbrev UmTotal (dataLen messageLength : Nat) : Prop := dataLen < messageLength ∨ messageLength < 8
+/-- `8+nameLen > messageLength` -/
+abbrev UmName (nameLen messageLength : Nat) : Prop := 8 + nameLen > messageLength
+/-- `len(data) < 12` (UnmarshalBinaryWithMetadata) -/
+abbrev UwmShort (dataLen : Nat) : Prop := dataLen < 12
+/-- `len(data) < messageLength || messageLength < 12` -/
+abbrev UwmTotal (dataLen messageLength : Nat) : Prop := dataLen < messageLength ∨ messageLength < 12
+/-- `12+nameLen+metaLen > messageLength` -/
+abbrev UwmBound (nameLen metaLen messageLength : Nat) : Prop := 12 + nameLen + metaLen > messageLength
+/-- `metaLen > 0` -/
+abbrev UwmHasMeta (metaLen : Nat) : Prop := metaLen > 0
+/-- `totalLen < 8` (readProtoFrame, handleConn) -/
+abbrev RdMin (totalLen : Nat) : Prop := totalLen < 8
+/-- `totalLen > maxFrameSize` (readProtoFrame, handleConn) -/
+abbrev RdMax (totalLen maxFrameSize : Nat) : Prop := totalLen > maxFrameSize
+/-- `len(frame) >= 12` (handleConn tries the metadata format) -/
+abbrev SrvTriesMeta (frameLen : Nat) : Prop := frameLen ≥ 12
+/-- `len(frame) < 12` (unmarshalProtoResponse) -/
+abbrev CliShort (frameLen : Nat) : Prop := frameLen < 12
+/-- `nameLen > 0 && potentialMetaLen >= 0 && 12+nameLen+potentialMetaLen <= totalLen` -/
+abbrev CliDetect (totalLen nameLen potentialMetaLen : Nat) : Prop :=
+  nameLen > 0 ∧ 12 + nameLen + potentialMetaLen ≤ totalLen
+/-- `len(data) < 10` (Metadata.UnmarshalBinary) -/
+abbrev MdShort (dataLen : Nat) : Prop := dataLen < 10
+/-- `pos+keyLen > len(data)` / `pos+valLen > len(data)` / `pos+2 > len(data)` / `pos+8 > len(data)` -/
+abbrev MdNeeds (pos n dataLen : Nat) : Prop := pos + n > dataLen
+/-- `remaining != 0` -/
+abbrev MdHasDeadline (remaining : Int) : Prop := remaining ≠ 0
+
 /-! ## metadata (metadata.go) -/
 
 abbrev Headers := List (Bytes × Bytes)
@@ -98,7 +135,7 @@ def remainingOf (deadlineNano now : Int) : Int :=
 
 /-- the receiving side of `Metadata.UnmarshalBinary`: rebase the remaining time on the local clock -/
 def deadlineOf (now remaining : Int) : Int :=
-  if remaining ≠ 0 then wrap64 (now + remaining) else 0
+  if MdHasDeadline remaining then wrap64 (now + remaining) else 0
 
 def encHeader (kv : Bytes × Bytes) : Bytes :=
   be16 kv.1.length ++ kv.1 ++ (be16 kv.2.length ++ kv.2)
@@ -111,22 +148,22 @@ def mdMarshal (hs : Headers) (remaining : Int) : Bytes :=
 def mdLoop (data : Bytes) : Nat → Nat → Headers → R (Nat × Headers)
   | 0, pos, m => .ok (pos, m)
   | count + 1, pos, m =>
-    if pos + 2 > data.length then .error .invalidMetadata else
+    if MdNeeds pos 2 data.length then .error .invalidMetadata else
     match u16At data pos with
     | .error e => .error e
     | .ok keyLen =>
     let pos := pos + 2
-    if pos + keyLen > data.length then .error .invalidMetadata else
+    if MdNeeds pos keyLen data.length then .error .invalidMetadata else
     match slice data pos (pos + keyLen) with
     | .error e => .error e
     | .ok key =>
     let pos := pos + keyLen
-    if pos + 2 > data.length then .error .invalidMetadata else
+    if MdNeeds pos 2 data.length then .error .invalidMetadata else
     match u16At data pos with
     | .error e => .error e
     | .ok valLen =>
     let pos := pos + 2
-    if pos + valLen > data.length then .error .invalidMetadata else
+    if MdNeeds pos valLen data.length then .error .invalidMetadata else
     match slice data pos (pos + valLen) with
     | .error e => .error e
     | .ok val =>
@@ -134,14 +171,14 @@ def mdLoop (data : Bytes) : Nat → Nat → Headers → R (Nat × Headers)
 
 /-- `Metadata.UnmarshalBinary` (on a zero-value receiver) -/
 def mdUnmarshal (data : Bytes) : R MD :=
-  if data.length < 10 then .error .invalidMetadata else
+  if MdShort data.length then .error .invalidMetadata else
   match u16At data 0 with
   | .error e => .error e
   | .ok count =>
   match mdLoop data count 2 [] with
   | .error e => .error e
   | .ok (pos, m) =>
-  if pos + 8 > data.length then .error .invalidMetadata else
+  if MdNeeds pos 8 data.length then .error .invalidMetadata else
   match u64At data pos with
   | .error e => .error e
   | .ok r => .ok ⟨m, toInt64 r⟩
@@ -176,15 +213,15 @@ def marshalWithMeta (name payload metaBytes : Bytes) : R Bytes :=
 
 /-- `ProtoSerializer.UnmarshalBinary` -/
 def unmarshal (c : Codec) (data : Bytes) : R Decoded :=
-  if data.length < 8 then .error .invalidLength else
+  if UmShort data.length then .error .invalidLength else
   match u32At data 0 with
   | .error e => .error e
   | .ok messageLength =>
-  if data.length < messageLength ∨ messageLength < 8 then .error .invalidLength else
+  if UmTotal data.length messageLength then .error .invalidLength else
   match u32At data 4 with
   | .error e => .error e
   | .ok nameLen =>
-  if 8 + nameLen > messageLength then .error .invalidLength else
+  if UmName nameLen messageLength then .error .invalidLength else
   match slice data 8 (8 + nameLen) with
   | .error e => .error e
   | .ok typeName =>
@@ -197,21 +234,21 @@ def unmarshal (c : Codec) (data : Bytes) : R Decoded :=
 
 /-- `ProtoSerializer.UnmarshalBinaryWithMetadata` -/
 def unmarshalWithMeta (c : Codec) (data : Bytes) : R Decoded :=
-  if data.length < 12 then .error .invalidLength else
+  if UwmShort data.length then .error .invalidLength else
   match u32At data 0 with
   | .error e => .error e
   | .ok messageLength =>
-  if data.length < messageLength ∨ messageLength < 12 then .error .invalidLength else
+  if UwmTotal data.length messageLength then .error .invalidLength else
   match u32At data 4, u32At data 8 with
   | .error e, _ => .error e
   | _, .error e => .error e
   | .ok nameLen, .ok metaLen =>
-  if 12 + nameLen + metaLen > messageLength then .error .invalidLength else
+  if UwmBound nameLen metaLen messageLength then .error .invalidLength else
   match slice data 12 (12 + nameLen) with
   | .error e => .error e
   | .ok typeName =>
   if !c.reg typeName then .error .unknownType else
-  match (if metaLen > 0 then
+  match (if UwmHasMeta metaLen then
            match slice data (12 + nameLen) (12 + nameLen + metaLen) with
            | .error e => .error e
            | .ok mb => match mdUnmarshal mb with
@@ -237,31 +274,31 @@ structure Raw where
 
 /-- the length checks and slicing of `UnmarshalBinary` -/
 def frameLegacy (data : Bytes) : R Raw :=
-  if data.length < 8 then .error .invalidLength else
+  if UmShort data.length then .error .invalidLength else
   match u32At data 0 with
   | .error e => .error e
   | .ok messageLength =>
-  if data.length < messageLength ∨ messageLength < 8 then .error .invalidLength else
+  if UmTotal data.length messageLength then .error .invalidLength else
   match u32At data 4 with
   | .error e => .error e
   | .ok nameLen =>
-  if 8 + nameLen > messageLength then .error .invalidLength else
+  if UmName nameLen messageLength then .error .invalidLength else
   match slice data 8 (8 + nameLen), slice data (8 + nameLen) messageLength with
   | .ok typeName, .ok payload => .ok ⟨typeName, [], payload⟩
   | _, _ => .error .panic
 
 /-- the length checks and slicing of `UnmarshalBinaryWithMetadata` -/
 def frameMeta (data : Bytes) : R Raw :=
-  if data.length < 12 then .error .invalidLength else
+  if UwmShort data.length then .error .invalidLength else
   match u32At data 0 with
   | .error e => .error e
   | .ok messageLength =>
-  if data.length < messageLength ∨ messageLength < 12 then .error .invalidLength else
+  if UwmTotal data.length messageLength then .error .invalidLength else
   match u32At data 4, u32At data 8 with
   | .error e, _ => .error e
   | _, .error e => .error e
   | .ok nameLen, .ok metaLen =>
-  if 12 + nameLen + metaLen > messageLength then .error .invalidLength else
+  if UwmBound nameLen metaLen messageLength then .error .invalidLength else
   match slice data 12 (12 + nameLen), slice data (12 + nameLen) (12 + nameLen + metaLen),
         slice data (12 + nameLen + metaLen) messageLength with
   | .ok typeName, .ok mb, .ok payload => .ok ⟨typeName, mb, payload⟩
@@ -270,7 +307,7 @@ def frameMeta (data : Bytes) : R Raw :=
 /-- what happens after framing: registry lookup, then metadata, then the payload -/
 def finish (c : Codec) (r : Raw) : R Decoded :=
   if !c.reg r.name then .error .unknownType else
-  match (if r.metaBytes.length > 0 then
+  match (if UwmHasMeta r.metaBytes.length then
            match mdUnmarshal r.metaBytes with
            | .error e => .error e
            | .ok md => .ok (some md)
@@ -281,7 +318,7 @@ def finish (c : Codec) (r : Raw) : R Decoded :=
 
 /-- framing-level view of the server's decode block -/
 def serverFrame (frame : Bytes) : R Raw :=
-  if frame.length ≥ 12 then
+  if SrvTriesMeta frame.length then
     match frameMeta frame with
     | .error .invalidLength => frameLegacy frame
     | r => r
@@ -289,10 +326,10 @@ def serverFrame (frame : Bytes) : R Raw :=
 
 /-- does the client's heuristic try the metadata format first? -/
 def clientTriesMeta (frame : Bytes) : Bool :=
-  if frame.length < 12 then false else
+  if CliShort frame.length then false else
   match u32At frame 0, u32At frame 4, u32At frame 8 with
   | .ok totalLen, .ok nameLen, .ok potentialMetaLen =>
-    decide (nameLen > 0 ∧ 12 + nameLen + potentialMetaLen ≤ totalLen)
+    decide (CliDetect totalLen nameLen potentialMetaLen)
   | _, _, _ => false
 
 /-! ## format detection -/
@@ -300,7 +337,7 @@ def clientTriesMeta (frame : Bytes) : Bool :=
 /-- the decode block of `ProtoServer.handleConn`: metadata format first, legacy on
     `ErrInvalidMessageLength` -/
 def serverDecode (c : Codec) (frame : Bytes) : R Decoded :=
-  if frame.length ≥ 12 then
+  if SrvTriesMeta frame.length then
     match unmarshalWithMeta c frame with
     | .error .invalidLength => unmarshal c frame
     | r => r
@@ -308,10 +345,10 @@ def serverDecode (c : Codec) (frame : Bytes) : R Decoded :=
 
 /-- `Client.unmarshalProtoResponse`: the heuristic on bytes 8:12 -/
 def clientDecode (c : Codec) (frame : Bytes) : R Decoded :=
-  if frame.length < 12 then unmarshal c frame else
+  if CliShort frame.length then unmarshal c frame else
   match u32At frame 0, u32At frame 4, u32At frame 8 with
   | .ok totalLen, .ok nameLen, .ok potentialMetaLen =>
-    if nameLen > 0 ∧ 12 + nameLen + potentialMetaLen ≤ totalLen then
+    if CliDetect totalLen nameLen potentialMetaLen then
       match unmarshalWithMeta c frame with
       | .ok r => .ok r
       | .error _ => unmarshal c frame
@@ -376,7 +413,7 @@ def allocRequest (maxFrameSize : Nat) (s : Bytes) : Option Nat :=
   | .ok (hdr, _) =>
     match u32At hdr 0 with
     | .error _ => none
-    | .ok totalLen => if totalLen < 8 ∨ totalLen > maxFrameSize then none else some totalLen
+    | .ok totalLen => if RdMin totalLen ∨ RdMax totalLen maxFrameSize then none else some totalLen
 
 /-- `readProtoFrame(reader, pool, maxFrameSize)` on a reader holding `s` -/
 def readFrame (maxFrameSize : Nat) (s : Bytes) : R Frame :=
@@ -386,8 +423,8 @@ def readFrame (maxFrameSize : Nat) (s : Bytes) : R Frame :=
   match u32At hdr 0 with
   | .error e => .error e
   | .ok totalLen =>
-  if totalLen < 8 then .error .invalidLength else
-  if totalLen > maxFrameSize then .error .frameTooLarge else
+  if RdMin totalLen then .error .invalidLength else
+  if RdMax totalLen maxFrameSize then .error .frameTooLarge else
   -- frame := make([]byte, totalLen); copy(frame[:4], hdr); io.ReadFull(reader, frame[4:])
   if 4 > totalLen then .error .panic else
   match readFull s1 (totalLen - 4) with
